@@ -83,6 +83,13 @@ pub fn light_strategy(p: SizeProfile, nops: std::ops::Range<usize>) -> BoxedStra
 pub fn heavy_strategy() -> BoxedStrategy<MultiCase> {
     (any::<bool>(), insts_strategy(2..=2), 0u8..3, any::<u16>(), 0u8..30, proptest::collection::vec((any::<u8>(), mop_strategy(SizeProfile::Tiny)), 0..12), drain_strategy())
         .prop_map(|(fd, mut insts, a_consume, t2, extra_b, noise, drain)| {
+            // half of the heavy cases use the two slots that differ only in the data directory
+            // (same key): the closest two instances can be while still having to be isolated
+            if extra_b % 2 == 0 {
+                let (a, b) = if extra_b % 4 == 0 { (0u8, 2u8) } else { (2u8, 0u8) };
+                insts[0].slot = a;
+                insts[1].slot = b;
+            }
             insts[0].fsync = Fsync::Ms(1);
             insts[1].fsync = Fsync::Ms(1);
             insts[0].mode = Mode::Strict;
